@@ -10,6 +10,14 @@ namespace ShpanVerif.Drive.C01
 open ShpanVerif.Util ShpanVerif.Model.Pipe ShpanVerif.Drive.PipeCommon
 
 def handle (c obs : String) : String × Bool × String :=
+  if isSpecOnly c then
+    -- operators outside the model: the property itself is evaluated on the observation of the real code
+    match parseObs obs with
+    | some os =>
+      let bad := os.filter (fun o => !(obsBalanced o && o.pre == 0 && o.leak == 0))
+      (obs, bad.isEmpty, if bad.isEmpty then "" else "spec-only: unbalanced open/close, effects before the terminal, or a file descriptor left open")
+    | none => (obs, false, "unparsable observation")
+  else
   match parseCase c with
   | none => ("bad-case", false, "unparsable case")
   | some (p, rs) =>
